@@ -796,4 +796,277 @@ theorem good_ifTrueStmt (F : FloatOps) (B : List String) (pos bp p : Pos) (body 
       obtain ⟨rfl, rfl⟩ := hce
       exact ⟨rfl, f + 1, envX, hb⟩
 
+/-! ### `if init; c { … }` -/
+
+/-- two compile actions in sequence against two reference computations in sequence -/
+theorem good_seq (F : FloatOps) (B B1 B2 : List String) (n1 n2 : Nat) (act1 act2 : Compile.CM Unit)
+    (sem1 sem2 : Nat → Sem.Env → Sem.SM (Sem.Comp × Sem.Env))
+    (h1 : GoodC F B B1 n1 act1 sem1) (h2 : GoodC F B1 B2 n2 act2 sem2) :
+    GoodC F B B2 (max n1 n2) (act1 >>= fun _ => act2) (fun fuel env => do
+      let (c, env') ← sem1 fuel env
+      match c with
+      | .normal => sem2 fuel env'
+      | c => pure (c, env')) := by
+  intro cs cs' hc hcov hok
+  obtain ⟨_, cs1, hc1, hc2⟩ := bind_inv hc
+  obtain ⟨hse1, hok1, hcov1, hsim1⟩ := h1 cs cs1 hc1 hcov hok
+  obtain ⟨hse2, hok2, hcov2, hsim2⟩ := h2 cs1 cs' hc2 hcov1 hok1
+  refine ⟨hse1.trans hse2, hok2, hcov2, ?_⟩
+  intro fuel K code bp L env binds s t ss ss' c env' t' hK hcode hvm hip hsp hL hst hdy hsem
+  dsimp only at hsem
+  obtain ⟨⟨c1, env1⟩, ss1, t1, hs1, hsem⟩ := sm_bind_inv hsem
+  obtain ⟨rfl, out1⟩ := hsim1 fuel K code bp L env binds s t ss ss1 c1 env1 t1 (Compile.IsPre.trans hse2.cpre hK)
+    (hcode.sub hse2.pre (Nat.le_refl _)) hvm hip (by omega) (Nat.le_trans hse2.tabs.fnMax hL) hst hdy hs1
+  cases c1 with
+  | normal =>
+    simp only at hsem
+    obtain ⟨binds1, s1, hr1, hf1, hip1, hsp1, hsub1, hst1, hdy1⟩ := out1
+    obtain ⟨rfl, out2⟩ := hsim2 fuel K code bp L env1 binds1 s1 t1 ss ss' c env' t' hK
+      (hcode.sub (Pre.refl _) hse1.pre.1) (hvm.of_frm hf1 hsp1) hip1 (by omega) hL hst1 hdy1 hsem
+    exact ⟨rfl, OutS.via hr1 hf1 hsp1 hsub1 out2⟩
+  | ret v =>
+    simp only at hsem
+    obtain ⟨hce, rfl, rfl⟩ := sm_pure_inv hsem
+    simp only [Prod.mk.injEq] at hce
+    obtain ⟨rfl, rfl⟩ := hce
+    exact ⟨rfl, out1.abrupt (by simp)⟩
+  | thr a =>
+    simp only at hsem
+    obtain ⟨hce, rfl, rfl⟩ := sm_pure_inv hsem
+    simp only [Prod.mk.injEq] at hce
+    obtain ⟨rfl, rfl⟩ := hce
+    exact ⟨rfl, out1.abrupt (by simp)⟩
+  | brk => exact out1.elim
+  | cont => exact out1.elim
+
+theorem execStmt_ifInit (F : FloatOps) (fuel : Nat) (env : Sem.Env) (pos : Pos) (i : Stmt) (bp : Pos) (c : Expr)
+    (body : List Stmt) (else_ : Option Stmt) :
+    Sem.execStmt F (fuel + 1) env (.if_ pos (some i) c bp body else_) = (do
+      let (c0, env1) ← Sem.execStmt F fuel ([] :: env) i
+      match c0 with
+      | .normal =>
+        match (← Sem.evalExpr F fuel env1 c) with
+        | .thr a => pure (.thr a, env)
+        | .val cv =>
+          if !(← Sem.liftM (isFalsy cv)) then do
+            let (c, _) ← Sem.execBlock F fuel env1 body
+            pure (c, env)
+          else
+            match else_ with
+            | some e => do let (c, _) ← Sem.execStmt F fuel env1 e; pure (c, env)
+            | none => pure (.normal, env)
+      | c => pure (c, env)) := rfl
+
+theorem good_ifInitStmt (F : FloatOps) (B B1 : List String) (pos bp : Pos) (i : Stmt) (c : Expr) (body : List Stmt)
+    (hFc : ExprF (bnd B1) c = true) (hnb : isBoolLit c = false) (nI nT : Nat)
+    (hI : GoodC F B B1 nI (compileStmt i) (fun fuel env => Sem.execStmt F fuel env i))
+    (hT : GoodB F B1 nT (Compile.blockOf body (compileStmts body)) (fun fuel env => Sem.execBlock F fuel env body)) :
+    GoodB F B (max nI (max (need c) nT)) (compileStmt (.if_ pos (some i) c bp body none))
+      (fun fuel env => Sem.execStmt F fuel env (.if_ pos (some i) c bp body none)) := by
+  have hin := good_ifnoelse F B1 pos c hFc nT _ _ hT
+  rw [Compile.compileStmt_eq]
+  simp only
+  refine good_withBlock F B B1 _ _ (fun fuel env => do
+        let (c0, env1) ← Sem.execStmt F fuel env i
+        match c0 with
+        | .normal => (do
+            match (← Sem.evalExpr F fuel env1 c) with
+            | .thr a => pure (.thr a, env1)
+            | .val cv => if !(← Sem.liftM (isFalsy cv)) then Sem.execBlock F fuel env1 body else pure (.normal, env1))
+        | c0 => pure (c0, env1))
+      _ ?_ ?_
+  · cases c with
+    | bool p b => simp [isBoolLit] at hnb
+    | _ => exact good_seq F B B1 B1 _ _ _ _ _ _ hI hin.toC
+  · intro fuel env ss t c' env' ss' t' hsem
+    cases fuel with
+    | zero => exact (execStmt_zero' hsem).elim
+    | succ fuel =>
+      rw [execStmt_ifInit] at hsem
+      obtain ⟨⟨c0, env1⟩, ss0, t0, h0, hsem⟩ := sm_bind_inv hsem
+      cases c0 with
+      | normal =>
+        simp only at hsem
+        obtain ⟨rc, ss1, t1, hev, hsem⟩ := sm_bind_inv hsem
+        cases rc with
+        | thr a =>
+          obtain ⟨hce, rfl, rfl⟩ := sm_pure_inv hsem
+          simp only [Prod.mk.injEq] at hce
+          obtain ⟨rfl, rfl⟩ := hce
+          refine ⟨rfl, fuel, env1, ?_⟩
+          rw [sm_bind_run h0]
+          simp only
+          rw [sm_bind_run hev]
+          exact sm_pure_run _ _ _
+        | val cv =>
+          simp only at hsem
+          obtain ⟨fl, ss2, t2, hfl, hsem⟩ := sm_bind_inv hsem
+          cases fl with
+          | false =>
+            simp only [Bool.not_false, if_true] at hsem
+            obtain ⟨⟨c1, envX⟩, ss3, t3, hb, hsem⟩ := sm_bind_inv hsem
+            obtain ⟨hce, rfl, rfl⟩ := sm_pure_inv hsem
+            simp only [Prod.mk.injEq] at hce
+            obtain ⟨rfl, rfl⟩ := hce
+            refine ⟨rfl, fuel, envX, ?_⟩
+            rw [sm_bind_run h0]
+            simp only
+            rw [sm_bind_run hev]
+            simp only
+            rw [sm_bind_run hfl]
+            simp only [Bool.not_false, if_true]
+            exact hb
+          | true =>
+            simp only [Bool.not_true, Bool.false_eq_true, if_false] at hsem
+            obtain ⟨hce, rfl, rfl⟩ := sm_pure_inv hsem
+            simp only [Prod.mk.injEq] at hce
+            obtain ⟨rfl, rfl⟩ := hce
+            refine ⟨rfl, fuel, env1, ?_⟩
+            rw [sm_bind_run h0]
+            simp only
+            rw [sm_bind_run hev]
+            simp only
+            rw [sm_bind_run hfl]
+            simp only [Bool.not_true, Bool.false_eq_true, if_false]
+            exact sm_pure_run _ _ _
+      | brk =>
+        simp only at hsem
+        obtain ⟨hce, rfl, rfl⟩ := sm_pure_inv hsem
+        simp only [Prod.mk.injEq] at hce
+        obtain ⟨rfl, rfl⟩ := hce
+        refine ⟨rfl, fuel, env1, ?_⟩
+        rw [sm_bind_run h0]
+        exact sm_pure_run _ _ _
+      | cont =>
+        simp only at hsem
+        obtain ⟨hce, rfl, rfl⟩ := sm_pure_inv hsem
+        simp only [Prod.mk.injEq] at hce
+        obtain ⟨rfl, rfl⟩ := hce
+        refine ⟨rfl, fuel, env1, ?_⟩
+        rw [sm_bind_run h0]
+        exact sm_pure_run _ _ _
+      | ret v =>
+        simp only at hsem
+        obtain ⟨hce, rfl, rfl⟩ := sm_pure_inv hsem
+        simp only [Prod.mk.injEq] at hce
+        obtain ⟨rfl, rfl⟩ := hce
+        refine ⟨rfl, fuel, env1, ?_⟩
+        rw [sm_bind_run h0]
+        exact sm_pure_run _ _ _
+      | thr a =>
+        simp only at hsem
+        obtain ⟨hce, rfl, rfl⟩ := sm_pure_inv hsem
+        simp only [Prod.mk.injEq] at hce
+        obtain ⟨rfl, rfl⟩ := hce
+        refine ⟨rfl, fuel, env1, ?_⟩
+        rw [sm_bind_run h0]
+        exact sm_pure_run _ _ _
+
+theorem good_ifInitElseStmt (F : FloatOps) (B B1 : List String) (pos bp : Pos) (i : Stmt) (c : Expr) (body : List Stmt)
+    (e : Stmt) (hFc : ExprF (bnd B1) c = true) (hnb : isBoolLit c = false) (nI nT nE : Nat)
+    (hI : GoodC F B B1 nI (compileStmt i) (fun fuel env => Sem.execStmt F fuel env i))
+    (hT : GoodB F B1 nT (Compile.blockOf body (compileStmts body)) (fun fuel env => Sem.execBlock F fuel env body))
+    (hE : GoodB F B1 nE (compileStmt e) (fun fuel env => Sem.execStmt F fuel env e)) :
+    GoodB F B (max nI (max (need c) (max nT nE))) (compileStmt (.if_ pos (some i) c bp body (some e)))
+      (fun fuel env => Sem.execStmt F fuel env (.if_ pos (some i) c bp body (some e))) := by
+  have hin := good_ifelse F B1 pos c hFc nT nE _ _ _ _ hT hE
+  rw [Compile.compileStmt_eq]
+  simp only
+  refine good_withBlock F B B1 _ _ (fun fuel env => do
+        let (c0, env1) ← Sem.execStmt F fuel env i
+        match c0 with
+        | .normal => (do
+            match (← Sem.evalExpr F fuel env1 c) with
+            | .thr a => pure (.thr a, env1)
+            | .val cv => if !(← Sem.liftM (isFalsy cv)) then Sem.execBlock F fuel env1 body else Sem.execStmt F fuel env1 e)
+        | c0 => pure (c0, env1))
+      _ ?_ ?_
+  · cases c with
+    | bool p b => simp [isBoolLit] at hnb
+    | _ => exact good_seq F B B1 B1 _ _ _ _ _ _ hI hin.toC
+  · intro fuel env ss t c' env' ss' t' hsem
+    cases fuel with
+    | zero => exact (execStmt_zero' hsem).elim
+    | succ fuel =>
+      rw [execStmt_ifInit] at hsem
+      obtain ⟨⟨c0, env1⟩, ss0, t0, h0, hsem⟩ := sm_bind_inv hsem
+      cases c0 with
+      | normal =>
+        simp only at hsem
+        obtain ⟨rc, ss1, t1, hev, hsem⟩ := sm_bind_inv hsem
+        cases rc with
+        | thr a =>
+          obtain ⟨hce, rfl, rfl⟩ := sm_pure_inv hsem
+          simp only [Prod.mk.injEq] at hce
+          obtain ⟨rfl, rfl⟩ := hce
+          refine ⟨rfl, fuel, env1, ?_⟩
+          rw [sm_bind_run h0]
+          simp only
+          rw [sm_bind_run hev]
+          exact sm_pure_run _ _ _
+        | val cv =>
+          simp only at hsem
+          obtain ⟨fl, ss2, t2, hfl, hsem⟩ := sm_bind_inv hsem
+          cases fl with
+          | false =>
+            simp only [Bool.not_false, if_true] at hsem
+            obtain ⟨⟨c1, envX⟩, ss3, t3, hb, hsem⟩ := sm_bind_inv hsem
+            obtain ⟨hce, rfl, rfl⟩ := sm_pure_inv hsem
+            simp only [Prod.mk.injEq] at hce
+            obtain ⟨rfl, rfl⟩ := hce
+            refine ⟨rfl, fuel, envX, ?_⟩
+            rw [sm_bind_run h0]
+            simp only
+            rw [sm_bind_run hev]
+            simp only
+            rw [sm_bind_run hfl]
+            simp only [Bool.not_false, if_true]
+            exact hb
+          | true =>
+            simp only [Bool.not_true, Bool.false_eq_true, if_false] at hsem
+            obtain ⟨⟨c1, envX⟩, ss3, t3, hb, hsem⟩ := sm_bind_inv hsem
+            obtain ⟨hce, rfl, rfl⟩ := sm_pure_inv hsem
+            simp only [Prod.mk.injEq] at hce
+            obtain ⟨rfl, rfl⟩ := hce
+            refine ⟨rfl, fuel, envX, ?_⟩
+            rw [sm_bind_run h0]
+            simp only
+            rw [sm_bind_run hev]
+            simp only
+            rw [sm_bind_run hfl]
+            simp only [Bool.not_true, Bool.false_eq_true, if_false]
+            exact hb
+      | brk =>
+        simp only at hsem
+        obtain ⟨hce, rfl, rfl⟩ := sm_pure_inv hsem
+        simp only [Prod.mk.injEq] at hce
+        obtain ⟨rfl, rfl⟩ := hce
+        refine ⟨rfl, fuel, env1, ?_⟩
+        rw [sm_bind_run h0]
+        exact sm_pure_run _ _ _
+      | cont =>
+        simp only at hsem
+        obtain ⟨hce, rfl, rfl⟩ := sm_pure_inv hsem
+        simp only [Prod.mk.injEq] at hce
+        obtain ⟨rfl, rfl⟩ := hce
+        refine ⟨rfl, fuel, env1, ?_⟩
+        rw [sm_bind_run h0]
+        exact sm_pure_run _ _ _
+      | ret v =>
+        simp only at hsem
+        obtain ⟨hce, rfl, rfl⟩ := sm_pure_inv hsem
+        simp only [Prod.mk.injEq] at hce
+        obtain ⟨rfl, rfl⟩ := hce
+        refine ⟨rfl, fuel, env1, ?_⟩
+        rw [sm_bind_run h0]
+        exact sm_pure_run _ _ _
+      | thr a =>
+        simp only at hsem
+        obtain ⟨hce, rfl, rfl⟩ := sm_pure_inv hsem
+        simp only [Prod.mk.injEq] at hce
+        obtain ⟨rfl, rfl⟩ := hce
+        refine ⟨rfl, fuel, env1, ?_⟩
+        rw [sm_bind_run h0]
+        exact sm_pure_run _ _ _
+
 end UgoVerif.CompSim
